@@ -164,3 +164,16 @@ func TestQuota(t *testing.T) {
 	}
 	core.RunQuota(t, ID, q, Check)
 }
+
+// TestBig: the free generator's cases at sizes where a dimension or the sample count crosses a
+// power of two (255..257, 511..513, 1023..1025, 4095..4097 with a short other side; both sides
+// 250..300, i.e. more than 2^16 samples).
+func TestBig(t *testing.T) {
+	g := rapid.Custom(func(t *rapid.T) *Case {
+		c := Gen(t)
+		d := gen.BigGeometry().Draw(t, "big")
+		c.Img.Resize(d[0], d[1])
+		return c
+	})
+	core.RunSharded(t, ID, 24, 600, g, Check)
+}
